@@ -26,8 +26,8 @@ ASSUMPTIONS = [
     "the class of the exception raised for an invalid enum name/value is not claimed, only that one is raised and the previous value stays",
 ]
 # classes of cases that are produced deterministically: their absence is a harness error (see vlib.harness)
-HARD_LABELS = ['strict_reject', 'lenient_accept', 'ctor_reject', 'prelude_user_subclasses']
-REQUIRED_LABELS = {"quick": ["strict_reject", "lenient_accept", "ctor_reject", "enum_by_name", "dependent_unit", "history_lenient_out_of_range", "history_repeat_out_of_range_strict", "history_repeat_in_range", "prelude_user_subclasses", "change_hook_assigns_sibling"], "thorough": ["strict_reject", "lenient_accept", "ctor_reject", "enum_by_name", "dependent_unit"]}
+HARD_LABELS = ['strict_reject', 'lenient_accept', 'ctor_reject', 'prelude_user_subclasses', 'in_worker_thread']
+REQUIRED_LABELS = {"quick": ["strict_reject", "lenient_accept", "ctor_reject", "enum_by_name", "dependent_unit", "history_lenient_out_of_range", "history_repeat_out_of_range_strict", "history_repeat_in_range", "prelude_user_subclasses", "change_hook_assigns_sibling", "in_worker_thread"], "thorough": ["strict_reject", "lenient_accept", "ctor_reject", "enum_by_name", "dependent_unit"]}
 
 
 def exhaustive(tier):
@@ -494,6 +494,24 @@ def run_shard(ctx, desc):
         ctx.label("prelude_" + desc.get("prelude", "none"))
         for t in desc["types"]:
             enum_type(ctx, t)
+        # the same rules hold in a thread other than the one that imported the library
+        import threading
+
+        box = []
+
+        def in_thread():
+            try:
+                for t in desc["types"][:2]:
+                    enum_type(ctx, t)
+            except BaseException as e:  # noqa: BLE001 - handed to the main thread
+                box.append(e)
+
+        th = threading.Thread(target=in_thread)
+        th.start()
+        th.join()
+        if box:
+            raise box[0]
+        ctx.label("in_worker_thread")
         return
 
     def body(h):
